@@ -196,10 +196,10 @@ func checkC02(t *testing.T, env *report.Env, rep *report.Report) {
 	obsAlpha := []Op{{Kind: "put", Name: "a", Value: "x"}, {Kind: "put", Name: "a", Value: "y"}, {Kind: "activate", Name: "a", Ver: 2}, {Kind: "delver", Name: "a", Ver: 1}, {Kind: "delver", Name: "a", Ver: 2}, {Kind: "delete", Name: "a"}, {Kind: "observe"}}
 	if env.Thorough() {
 		liveTree(rep, env, "live-tree-no-restart-depth5", liveAlpha, 5)
-		liveTree(rep, env, "live-tree-reads-between-writes-depth8", obsAlpha, 8)
+		liveTree(rep, env, "live-tree-reads-between-writes-depth7", obsAlpha, 7)
 	} else {
 		liveTree(rep, env, "live-tree-no-restart-depth4", liveAlpha, 4)
-		liveTree(rep, env, "live-tree-reads-between-writes-depth6", obsAlpha, 6)
+		liveTree(rep, env, "live-tree-reads-between-writes-depth5", obsAlpha, 5)
 	}
 }
 
